@@ -22,6 +22,8 @@ func main() {
 	switch os.Args[1] {
 	case "unit":
 		unitCmd(os.Args[2:])
+	case "closure":
+		closureCmd()
 	case "check":
 		fs := flag.NewFlagSet("check", flag.ExitOnError)
 		tier := fs.String("tier", "", "quick|thorough")
